@@ -21,6 +21,10 @@ pub fn run(ctx: &mut Ctx) {
         ctx.begin(i);
         let l = logical_for(ctx, "c02", i);
         let mut rng = ctx.rng("c02.probe", i);
+        if i % 6 == 4 {
+            crate::checks::common::failing_calls_before(&mut rng, None);
+            ctx.count("writes_preceded_by_failed_calls");
+        }
         let asyncw = i % 2 == 1;
         let api = if asyncw { "PMTiles::to_async_writer" } else { "PMTiles::to_writer" };
         let written = if asyncw {
